@@ -34,6 +34,9 @@ def gen_cases(tier, seed):
             shape = [int(s) for s in rng.integers(2, 8 if N < 4 else 5, size=N)]
             if fam == "tucker-sparse":
                 shape = [int(s) for s in rng.integers(4, 8 if N < 4 else 5, size=N)]
+            if fam in ("noisy", "int32") and rng.random() < 0.3:
+                # singleton modes (the unfolding of such a mode is a single row; other modes lose nothing)
+                shape[int(rng.integers(0, N))] = 1
             if fam == "shared-factors":
                 N = max(N, 3) if N < 4 else N
                 shape = [int(s) for s in rng.integers(3, 6, size=N)]
@@ -117,7 +120,11 @@ def _data(case):
             A = np.clip(np.round(np.abs(A) * 60.0), 0, 255).astype(np.uint8)
         else:
             A = (A * np.array([1.0e3 if i == 0 else 1.0 for i in range(shape[0])]).reshape([-1] + [1] * (len(shape) - 1))).astype(np.float32)
-        return A.astype(np.float64), {"tensor": ttb.tensor(A.copy())}
+        H_ = {"tensor": ttb.tensor(A.copy())}
+        if case["fam"] in ("int32", "uint8"):
+            # the sparse holder of the same integer-typed values
+            H_["sptensor"] = ttb.sptensor(np.argwhere(A != 0), A[A != 0].reshape(-1, 1).copy(), shape) if np.any(A != 0) else ttb.sptensor(shape=shape)
+        return A.astype(np.float64), H_
     sc_ = float(case.get("scale", 1.0))
     if sc_ != 1.0:
         # overall magnitude of the data: the vectors do not depend on it (Gram entries of 1e-16 / 1e16 / 1e-200 relative to unit data; 1e-150, where the Gram matrix itself sinks into the denormal range, is not asked for)
